@@ -16,6 +16,11 @@ E2 bounded enumeration on the real Element / Substance / Material classes.
              every sequence of 1..2 (thorough 3) add() calls from {existing first, existing last, new component},
              unpruned; after the last step O1-O5 must hold for the final amounts (reference: a dict).
 
+  operand    the density-carrying composite w as an operand: s = a + w, w + a, a += w, w * 2 (a shares a component
+             with w or not), then 1 (thorough 2) add() calls on the RESULT, then w is re-read: O1-O5 must still hold
+             for w with its own amounts.  Reads with a component selection (data_matter / data_composite, both
+             `quantity` flags) are made between the steps of every history.
+
 Oracle (statement only; m_i = component mass the object reports itself, amounts a_i = what the caller gave):
   O1  the given density is reported back unchanged (it is the one "attached");
   O2  rho = n * M_formula with M_formula = sum a_i m_i            (number-type composites)
@@ -89,6 +94,15 @@ COMPOSITES = {
     "material:number:[p]-last:str": ("Material", "str", "0.3 <H2O> 0.2 <[p]>", {"H2O": 0.3, "[p]": 0.2}, "number"),
     "material:mass:[e]-first:dict": ("Material", "dict", {"[e]": 0.2, "H2O": 0.3}, {"[e]": 0.2, "H2O": 0.3}, "mass"),
 }
+# the `proportion` constructor option of a Substance (how many formula units it stands for as a component of a
+# material) must not enter its own densities: n is per formula unit, the rows use the atom counts.
+# Element(..., proportion != 1) with a density is left out: on the unpatched tree its row uses proportion * n while
+# n is derived from the mass of ONE atom (rho_B = 1.994 for rho = 0.997) - reported separately, not enumerated.
+COMPOSITE_KW = {}
+for _cid, _p in (("substance:H2O:str", 2), ("substance:H2O:dict", 0.5), ("substance:Ca(OH)2:str", 0.5),
+                 ("substance:Ca(OH)2:dict", 2)):
+    COMPOSITES[_cid + ":proportion=%s" % _p] = COMPOSITES[_cid]
+    COMPOSITE_KW[_cid + ":proportion=%s" % _p] = dict(proportion=_p)
 NUCLEON_COMPOSITES = [c for c in COMPOSITES if "[" in c]      # isotope mode is irrelevant: natural=True only
 
 # operation histories on live composites that carry a density (E1): every sequence of 1..HDEPTH add() calls; the
@@ -103,6 +117,14 @@ HIST_OPS = {
 HIST_GIVEN = [("rho", 0.997), ("n", 1e22)]
 HIST_VOLUMES = [None, 2.5]
 HDEPTH = dict(quick=2, thorough=3)
+# the density-carrying composite w as an OPERAND: s = a + w, s = w + a, a += w, s = w * 2 (2 * w for a material),
+# then the RESULT s is modified with add() (1 call; thorough 2) and w is re-read: all relations must still hold for w
+OPERAND_FORMS = ["a+w", "w+a", "a+=w", "w*2"]
+OPERAND_PARTNERS = {      # the other operand a (no density): sharing a component with w / disjoint
+    "Substance": {"shared": "CO", "disjoint": "N2"},
+    "Material": {"shared": {"NaCl": 1, "KCl": 1}, "disjoint": {"O2": 1}},
+}
+ODEPTH = dict(quick=1, thorough=2)
 
 _DA = None
 
@@ -135,6 +157,7 @@ def _build(cid, natural, kind, value, unit, vol, vunit):
         kw["volume"] = Quantity(vol * V_UNITS[vunit], vunit)
     if isinstance(arg, dict):
         arg = dict(arg)
+    kw.update(COMPOSITE_KW.get(cid, {}))
     if cls == "Element":
         return Element(arg, natural=natural, **kw)
     if cls == "Substance":
@@ -256,6 +279,68 @@ def check_case(cid, natural, kind, value, unit, vol, vunit):
     return None
 
 
+def _light_reads(obj):
+    """table reads with a component selection and both `quantity` flags, between the steps and before the final
+    full read-out (a read must never change what a later read returns)"""
+    ks = list(obj.components)
+    obj.data_matter(components=[ks[0]], quantity=False)
+    obj.data_matter(components=[ks[-1]], quantity=True)
+    obj.data_composite(components=[ks[0]], quantity=False)
+
+
+def check_operand(cid, natural, kind, value, vol, form, partner, adds):
+    """w carries the density and is an operand; the result is modified with add(); w is re-read"""
+    from scinumtools.materials import Substance, Material, Norm
+    cls, inform, arg, amounts0, mode = COMPOSITES[cid]
+    case = dict(composite=cid, natural=natural, kind=kind, value=value, volume=vol, form=form, partner=partner,
+                adds=adds)
+    tags = ["operand", "form:" + form, "partner:" + partner, "class:" + cls, "input:" + inform, "mode:" + mode,
+            "given:" + kind, "natural" if natural else "abundant", "volume:" + ("l" if vol is not None else "none"),
+            "adds=%d" % len(adds)]
+
+    def run():
+        w = _build(cid, natural, kind, value, "g/cm3" if kind == "rho" else "cm-3", vol,
+                   "l" if vol is not None else None)
+        parg = OPERAND_PARTNERS[cls][partner]
+        if cls == "Substance":
+            a = Substance(parg, natural=natural)
+        else:
+            a = Material(dict(parg), natural=natural,
+                         norm_type=Norm.NUMBER_FRACTION if mode == "number" else Norm.MASS_FRACTION)
+        if form == "a+w":
+            s_ = a + w
+        elif form == "w+a":
+            s_ = w + a
+        elif form == "a+=w":
+            s_ = a
+            s_ += w
+        elif cls == "Material":
+            s_ = 2 * w
+        else:
+            s_ = w * 2
+        for key, amount in adds:
+            s_.add(key, amount)
+        _light_reads(w)
+        return _observe(cid, w, vol is not None, amounts0)
+    o = outcome(run)
+    if o[0] == "err":
+        return failure("operand", case, "executed and tabulated", list(o), tags, "raises:" + o[1])
+    bad = _relations(cid, kind, value, vol, o[1], amounts0)
+    if bad:
+        return failure("operand", case, bad[1], bad[2], tags, "operand-changed:" + bad[0])
+    return None
+
+
+def _operand_cases(cid, depth):
+    cls = COMPOSITES[cid][0]
+    ops = [tuple(o[1:]) for o in HIST_OPS[cls]]
+    for form in OPERAND_FORMS:
+        for partner in (["shared", "disjoint"] if form != "w*2" else ["disjoint"]):
+            for n in range(1, depth + 1):
+                for adds in itertools.product(ops, repeat=n):
+                    yield form, partner, [list(a) for a in adds]
+
+
 def check_history(cid, natural, kind, value, vol, history):
     """add() calls on a live composite with a density attached; all relations must hold for the final amounts"""
     cls, form, arg, amounts0, mode = COMPOSITES[cid]
@@ -268,7 +353,8 @@ def check_history(cid, natural, kind, value, vol, history):
     def run():
         obj = _build(cid, natural, kind, value, "g/cm3" if kind == "rho" else "cm-3", vol,
                      "l" if vol is not None else None)
-        obj = R.real_run(obj, history, None, cls == "Material")
+        obj = R.real_run(obj, history, None, cls == "Material", after_step=_light_reads)
+        _light_reads(obj)
         return _observe(cid, obj, vol is not None, amounts)
     o = outcome(run)
     if o[0] == "err":
@@ -295,11 +381,28 @@ def plan(tier, seed):
         for nat in (True, False):
             for kind, value in HIST_GIVEN:
                 shards.append(("history", cid, nat, kind, value, HDEPTH[tier]))
+                shards.append(("operand", cid, nat, kind, value, ODEPTH[tier]))
     return shards
 
 
 def run_shard(desc):
     sh = Shard(PROPERTY)
+    if desc[0] == "operand":
+        _, cid, nat, kind, value, depth = desc
+        for vol in HIST_VOLUMES:
+            for form, partner, adds in _operand_cases(cid, depth):
+                bad = check_operand(cid, nat, kind, value, vol, form, partner, adds)
+                sh.evaluations += 1
+                sh.nontrivial += 1
+                sh.transitions += 1 + len(adds)
+                sh.traces += 1
+                sh.count("operand:" + form)
+                if bad:
+                    sh.fail(bad)
+                _restore()
+        sh.sample(dict(composite=cid, natural=nat, kind=kind, value=value, form="a+w", partner="shared",
+                       adds=[list(HIST_OPS[COMPOSITES[cid][0]][0][1:])]))
+        return sh
     if desc[0] == "history":
         _, cid, nat, kind, value, depth = desc
         cls, _, _, amounts0, _ = COMPOSITES[cid]
@@ -339,6 +442,9 @@ def run_shard(desc):
 def replay(rec):
     c = rec["case"]
     try:
+        if "form" in c:
+            return check_operand(c["composite"], c["natural"], c["kind"], c["value"], c["volume"], c["form"],
+                                 c["partner"], c["adds"])
         if "history" in c:
             return check_history(c["composite"], c["natural"], c["kind"], c["value"], c["volume"], c["history"])[0]
         return check_case(c["composite"], c["natural"], c["kind"], c["value"], c["unit"], c["volume"], c["vunit"])
@@ -359,6 +465,9 @@ def finish(total, tier, seed):
     for key in ("add-existing", "add-new"):
         if not h.get("history:last:" + key):
             raise HarnessError("vacuous run: no history ends with " + key)
+    for form in OPERAND_FORMS:
+        if not h.get("operand:" + form):
+            raise HarnessError("vacuous run: no operand case of form " + form)
     hstates = total.sets.get("hstates", set())
     total.states = len(hstates)
     total.max_depth = max(total.sets.get("hdepth", {0}))
@@ -368,6 +477,8 @@ def finish(total, tier, seed):
         history_bounds=dict(starts=HIST_STARTS, operations=HIST_OPS, given=HIST_GIVEN, volume_l=HIST_VOLUMES,
                             depth=HDEPTH[tier], isotope_modes=["natural", "abundant"],
                             pruning="none (every history executed)"),
+        operand_bounds=dict(forms=OPERAND_FORMS, partners=OPERAND_PARTNERS, adds_depth=ODEPTH[tier],
+                            adds=HIST_OPS, starts=HIST_STARTS, given=HIST_GIVEN, volume_l=HIST_VOLUMES),
         bounds=dict(composites=sorted(COMPOSITES), mass_density_g_cm3=RHO_VALUES, mass_density_units=list(RHO_UNITS),
                     number_density_cm3=N_VALUES, number_density_units=list(N_UNITS), volume_l=V_VALUES,
                     volume_units=list(V_UNITS), isotope_modes=["natural", "abundant"]),
@@ -376,15 +487,17 @@ def finish(total, tier, seed):
 
 
 MANIFEST = dict(
-    text="Bounded-exhaustive enumeration on the real Element / Substance / Material classes: 25 composites (elements "
-         "and nucleons, substances from string and dictionary, number- and mass-fraction materials from string and "
+    text="Bounded-exhaustive enumeration on the real Element / Substance / Material classes: 29 composites (elements "
+         "and nucleons, substances from string and dictionary and with the proportion option 2 / 0.5, number- and mass-fraction materials from string and "
          "dictionary, 1-3 components, nucleon-first and nucleon-last composites in both orders) x given mass density "
          "(3 values x 3 unit spellings) or number density (3 values x 2 spellings) x volume (none, 2 values x 3 "
-         "spellings) x both isotope modes (nucleon composites: one mode) = 4095 cases, complete in both tiers. "
+         "spellings) x both isotope modes (nucleon composites: one mode) = 4935 cases, complete in both tiers. "
          "Checked: the given density is kept, rho = n M_formula, rho = sum n_i m_i, n_i = amount_i n, sum rho_i = rho, "
          "M = rho V, sum M_i = M (rel 1e-10) and independence of the unit spelling (rel 1e-12). The same relations "
          "after every history of <= 2 (thorough 3) add() calls {existing first / last, new component} on 6 live "
-         "composites x given rho / n x with / without volume x both isotope modes.",
+         "composites x given rho / n x with / without volume x both isotope modes, with partial table reads between "
+         "the steps; and with the density-carrying composite as an operand of +, += and * whose result is then "
+         "modified with add() (the operand is re-read).",
     note="Trusted: component masses reported by the object (C10), the Dalton row of the unit table, exact decimal "
          "factors between the unit spellings. Not covered: N column, avg row, both densities given, in-place "
          "conversion of the caller's Quantity objects.",
